@@ -53,7 +53,9 @@ type visited struct {
 // acyclic reports whether v can be handed to a printer that follows pointers without end:
 // arguments and results arrive from the wire, where a list may contain itself
 // (Cs4"echo"a1{r0;}z), and neither jsoniter nor fmt survive that.
-func acyclic(v reflect.Value, path map[visited]bool, depth int) bool {
+// all: follow every field (what fmt prints), not only what the JSON printer looks at
+// (exported fields, and the embedded structs whose fields are promoted).
+func acyclic(v reflect.Value, path map[visited]bool, depth int, all bool) bool {
 	if depth > 64 {
 		return false
 	}
@@ -72,25 +74,27 @@ func acyclic(v reflect.Value, path map[visited]bool, depth int) bool {
 	}
 	switch v.Kind() {
 	case reflect.Ptr, reflect.Interface:
-		return v.IsNil() || acyclic(v.Elem(), path, depth+1)
+		return v.IsNil() || acyclic(v.Elem(), path, depth+1, all)
 	case reflect.Slice, reflect.Array:
 		for i := 0; i < v.Len(); i++ {
-			if !acyclic(v.Index(i), path, depth+1) {
+			if !acyclic(v.Index(i), path, depth+1, all) {
 				return false
 			}
 		}
 	case reflect.Map:
 		for _, k := range v.MapKeys() {
-			if !acyclic(v.MapIndex(k), path, depth+1) {
+			if !acyclic(v.MapIndex(k), path, depth+1, all) {
 				return false
 			}
 		}
 	case reflect.Struct:
 		for i := 0; i < v.NumField(); i++ {
-			if v.Type().Field(i).PkgPath != "" {
-				continue // not exported: the printer does not look at it either
+			if f := v.Type().Field(i); !all && f.PkgPath != "" && !f.Anonymous {
+				// not exported and not embedded (the fields of an embedded struct are
+				// promoted, whatever its type's name): the JSON printer does not look at it
+				continue
 			}
-			if !acyclic(v.Field(i), path, depth+1) {
+			if !acyclic(v.Field(i), path, depth+1, all) {
 				return false
 			}
 		}
@@ -99,14 +103,17 @@ func acyclic(v reflect.Value, path map[visited]bool, depth int) bool {
 }
 
 func (log *Log) print(label string, v interface{}) {
-	if !acyclic(reflect.ValueOf(v), map[visited]bool{}, 0) {
-		log.Println(label, "(a value that contains itself or is nested too deep to print)")
+	const unprintable = "(a value that contains itself or is nested too deep to print)"
+	if !acyclic(reflect.ValueOf(v), map[visited]bool{}, 0, false) {
+		log.Println(label, unprintable)
 		return
 	}
 	if data, e := jsoniter.Marshal(v); e == nil {
 		log.Println(label, unsafeString(data))
-	} else {
+	} else if acyclic(reflect.ValueOf(v), map[visited]bool{}, 0, true) {
 		log.Println(label, v)
+	} else {
+		log.Println(label, unprintable) // fmt follows the fields the JSON printer leaves alone
 	}
 }
 
